@@ -65,10 +65,12 @@ var (
 func init() {
 	// init read-only commands map
 	for _, command := range []string{
-		"dump", "pttl", "sort", "ttl", "type", "exists",
-		// string & list & geo
+		// NOTE: sort (STORE option) and geoadd can modify data, they must always
+		// be sent to the master.
+		"dump", "pttl", "ttl", "type", "exists",
+		// string & list
 		"bitcount", "bitpos", "get", "getbit", "getrange", "strlen",
-		"lindex", "llen", "lrange", "geoadd",
+		"lindex", "llen", "lrange",
 		// hash
 		"hexists", "hget", "hgetall", "hkeys", "hlen", "hmget",
 		"hstrlen", "hvals", "hscan",
